@@ -17,18 +17,23 @@ Ltac case_if H :=
 
 (* ------------------------------------------------------------------ key wrapping data *)
 Definition ki_ok (k : option keyinfo) : Prop :=
-  match k with None => True | Some ki => exists c, ki_cp ki = Some c /\ cp_any c = true end.
-(* the hypothesis that excludes exactly the known finding: every cryptographic-parameters structure is present and holds
-   at least one truthy value *)
+  match k with
+  | None => True
+  | Some ki => match ki_cp ki with Some c => cp_any c = true | None => ki_uid ki <> [] end
+  end.
+(* the hypothesis that excludes exactly the known finding: every cryptographic-parameters structure that is present holds
+   at least one truthy value, and a key information structure without parameters has a non-empty identifier *)
 Definition kwd_no_falsy_only (w : option kwd) : Prop :=
   match w with None => True | Some w => ki_ok (kw_eki w) /\ ki_ok (kw_mski w) end.
 
 Lemma ki_roundtrip : forall k, ki_ok k ->
   exists d, ki_to_dict k = Ok d /\ dict_to_ki (ki_get (kid_uid d) (kid_cp d)) = Ok k.
 Proof.
-  intros [[u c]|] H; simpl in *.
-  - destruct H as [c0 [E A]]. subst c. exists (Some (mkKID (Some u) (Some c0))). split; [reflexivity|].
-    simpl. unfold ki_get. rewrite A. rewrite orb_true_r. reflexivity.
+  intros [[u [c|]]|] H; simpl in *.
+  - exists (Some (mkKID (Some u) (Some c))). split; [reflexivity|].
+    simpl. unfold ki_get. rewrite H. rewrite orb_true_r. reflexivity.
+  - exists (Some (mkKID (Some u) None)). split; [reflexivity|].
+    simpl. unfold ki_get. destruct u as [|x u]; [contradiction H; reflexivity|]. reflexivity.
   - exists None. split; [reflexivity|]. reflexivity.
 Qed.
 
@@ -76,7 +81,7 @@ Definition kwd_enums_ok (w : option kwd) : Prop :=
 
 Lemma ki_dict_enums : forall k d, ki_to_dict k = Ok d -> ki_enums_ok k -> cp_enums_ok (kid_cp d).
 Proof.
-  intros [[u [c|]]|] d H Ok'; simpl in *; try discriminate H; injection H as <-; simpl; [exact Ok'|apply cp_none_ok].
+  intros [[u [c|]]|] d H Ok'; simpl in *; injection H as <-; simpl; [exact Ok'|apply cp_none_ok|apply cp_none_ok].
 Qed.
 Lemma flatten_enums_ok : forall w k, kwd_flatten w = Ok k -> kwd_enums_ok w -> kc_enums_ok k.
 Proof.
